@@ -21,12 +21,12 @@ def _subs_with_point(
     point_: Point,
 ) -> Sequence[Expr]:
     base_scalars = coordinate_system.coord_system.base_scalars()
+    # NOTE: substitute simultaneously, the point coordinates can contain base scalars themselves
+    substitutions = {scalar: point_.coordinate(i) for i, scalar in enumerate(base_scalars)}
     result: list[Expr] = []
     for e in expr:
         expression = sympify(e, strict=True)
-        for i, scalar in enumerate(base_scalars):
-            expression = expression.subs(scalar, point_.coordinate(i))
-        result.append(expression)
+        result.append(expression.subs(substitutions, simultaneous=True))
     return result
 
 
